@@ -115,14 +115,14 @@ def plan(ctx):
                'c:LMa:MKLdNd:Me']
     units = []
     for name in names:
-        sel = fam.select(pool, 9 if ctx.quick else 80, ctx.seed + 3, name) + special
+        sel = fam.select(pool, 9 if ctx.quick else 50, ctx.seed + 3, name) + special
         if not ctx.quick:
             sel += fam.random_args(ctx.seed, 20)
             # coverage-directed: proofs that end exactly at the projected world / constant maximum
             from families import boundary
             sel += boundary.select(name, ctx.seed, want=3, tries=60)
         sel = list(dict.fromkeys(sel))
-        seeds = [ctx.seed, ctx.seed + 1] if ctx.quick else [ctx.seed + i for i in range(6)]
+        seeds = [ctx.seed, ctx.seed + 1] if ctx.quick else [ctx.seed + i for i in range(4)]
         n = 2 if ctx.quick else 8
         for k in range(n):
             units.append((name, sel[k::n], seeds))
@@ -150,10 +150,10 @@ def run(ctx):
     rep.coverage = dict(
         states=paths, transitions=trans, traces_validated_against_impl=0, samples=samples,
         logic_argument_pairs=pairs, pairs_with_limit_outcomes_only=limit_only,
-        bounds=dict(arguments='9 per logic by seed + 10 fixed' if ctx.quick else '80 per logic + 10 fixed + 20 random + boundary family (families/boundary.py)',
+        bounds=dict(arguments='9 per logic by seed + 10 fixed' if ctx.quick else '50 per logic + 10 fixed + 20 random + boundary family (families/boundary.py)',
                     options='both flags symbolic', call_mode='build | step loop (symbolic pick)',
                     premises='original, reversed, first premise repeated at the end (symbolic pick)',
-                    tie_break_seeds=2 if ctx.quick else 6, max_steps=250,
+                    tie_break_seeds=2 if ctx.quick else 4, max_steps=250,
                     note='call mode and premise variants are explored on the first seed; further seeds vary the options'),
         functions_executed=['Tableau.build/step', 'Rule._extend_targets/_select_best_target',
                             'Tableau._get_group_application/_select_optim_group_application',
